@@ -156,27 +156,37 @@ Proof.
   reflexivity.
 Qed.
 
+Lemma normal_w (sh : shape ROps) a b c d e f g w1 w2 h :
+  normal sh (mkRay a b c d e f g w1 h) = normal sh (mkRay a b c d e f g w2 h).
+Proof. destruct sh; reflexivity. Qed.
+Lemma distance_w (sh : shape ROps) a b c d e f g w1 w2 h :
+  distance sh (mkRay a b c d e f g w1 h) = distance sh (mkRay a b c d e f g w2 h).
+Proof. destruct sh; reflexivity. Qed.
+
 Lemma trace_surface_set_w u w' (r : ray ROps) :
   nonabsorbing u -> trace_surface u (set_w w' r) = option_map (set_w w') (trace_surface u r).
 Proof.
   intros Hk. unfold trace_surface. rewrite localize_set_w.
   destruct (localize u r) as [x y z L M N i w opd]. unfold nonabsorbing in Hk. rewrite Hk.
-  unfold set_w at 1 2 3 4 5 6 7 8 9 10.
-  cbn [rx ry rz rL rM rN ri rw ropd].
-  assert (Hd : forall sh, distance sh (mkRay x y z L M N i w' opd) = distance sh (mkRay x y z L M N i w opd)).
-  { intros sh. destruct sh; reflexivity. }
-  rewrite Hd. destruct (distance (s_shape u) (mkRay x y z L M N i w opd)) as [t|]; [|reflexivity].
+  change (set_w w' (mkRay x y z L M N i w opd)) with (mkRay x y z L M N i w' opd).
+  rewrite (distance_w (s_shape u) x y z L M N i w' w opd).
+  destruct (distance (s_shape u) (mkRay x y z L M N i w opd)) as [t|]; [|reflexivity].
   cbn [rx ry rz rL rM rN ri rw ropd].
   rewrite (propagate_wavelength_free t x L y M z N w' w i).
   destruct (k_propagate ROps t x L y M z N 0 w i) as [[[px py] pz] pi].
-  destruct (s_aper u) as [[rmax rmin]|]; cbn [rx ry rz rL rM rN ri rw ropd];
-  match goal with |- context [normal ?sh (mkRay ?a ?b ?c ?d ?e ?f ?g w' ?h)] =>
-    replace (normal sh (mkRay a b c d e f g w' h)) with (normal sh (mkRay a b c d e f g w h)) by (destruct sh; reflexivity);
-    destruct (normal sh (mkRay a b c d e f g w h)) as [[[nx ny] nz]|] end; try reflexivity;
-  (destruct (s_refl u);
-    [destruct (k_reflect ROps nx ny nz L M N) as [[tx ty] tz]|destruct (k_refract ROps nx ny nz (s_n1 u) (s_n2 u) L M N) as [[tx ty] tz]]);
-  destruct (s_coat u) as [[tr rf]|]; cbn [rx ry rz rL rM rN ri rw ropd option_map];
-  rewrite <- globalize_set_w; reflexivity.
+  destruct (s_aper u) as [[rmax rmin]|]; cbn [rx ry rz rL rM rN ri rw ropd].
+  - rewrite (normal_w (s_shape u) px py pz L M N _ w' w _).
+    destruct (normal (s_shape u) _) as [[[nx ny] nz]|]; [|reflexivity].
+    destruct (s_refl u);
+      [destruct (k_reflect ROps nx ny nz L M N) as [[tx ty] tz]|destruct (k_refract ROps nx ny nz (s_n1 u) (s_n2 u) L M N) as [[tx ty] tz]];
+    destruct (s_coat u) as [[tr rf]|]; cbn [rx ry rz rL rM rN ri rw ropd option_map];
+    rewrite <- globalize_set_w; reflexivity.
+  - rewrite (normal_w (s_shape u) px py pz L M N _ w' w _).
+    destruct (normal (s_shape u) _) as [[[nx ny] nz]|]; [|reflexivity].
+    destruct (s_refl u);
+      [destruct (k_reflect ROps nx ny nz L M N) as [[tx ty] tz]|destruct (k_refract ROps nx ny nz (s_n1 u) (s_n2 u) L M N) as [[tx ty] tz]];
+    destruct (s_coat u) as [[tr rf]|]; cbn [rx ry rz rL rM rN ri rw ropd option_map];
+    rewrite <- globalize_set_w; reflexivity.
 Qed.
 
 Theorem trace_wavelength_independent ss : forall w' (r : ray ROps),
